@@ -17,6 +17,7 @@
     isogen.digits <width> <hex>      translated _parse_digits
     isogen.idate <hex>               translated _parse_isodate  -> ok y m d pos
     isogen.itime <hex>               translated _parse_isotime  -> ok h m s us tz   (raw components)
+    isogen.edate / isogen.etime / isogen.etz   translated bodies of parse_isodate / parse_isotime / parse_tzstr
 
   `sep` is the hex of the UTF-8 of the `sep` argument (`.` = empty string), `-` = None.
 -/
@@ -88,6 +89,15 @@ def handle (op : String) (args : List String) : Option String :=
   | "isogen.digits", [w, hex] => do
       let s ← bytes? hex; let w ← parseInt? w
       some (Py.showR toString (Gen.parseDigits s w))
+  | "isogen.edate", [hex] => do
+      let s ← bytes? hex
+      some (Py.showR (fun o => show3 (Cal.fromOrdinal o)) (Gen.parseIsodateEntry s))
+  | "isogen.etime", [hex] => do
+      let s ← bytes? hex
+      some (Py.showR showComps (Gen.parseIsotimeEntry s))
+  | "isogen.etz", [z, hex] => do
+      let s ← bytes? hex
+      some (Py.showR showOff (Gen.parseTzstrEntry s (z != "0")))
   | "isogen.idate", [hex] => do
       let s ← bytes? hex
       some (Py.showR (fun (p : List BytesPy.Comp × Int) => showComps p.1 ++ s!" {p.2}") (Gen.parseIsodate s))
